@@ -326,3 +326,18 @@ func VH_C10_FolderDownloadTwoResumes_sym() {
 	vAssert("nothing_after_last_item", pos == len(out))
 	vAssert("announced_count_equals_headers_sent", announced == sent)
 }
+
+// The announced item count is the number of visible entries for folders larger than one byte can count.
+func VH_C10_ItemCountLargeFolder_sym() {
+	vUnroll(400)
+	const root = "/r/big"
+	vWalkTree = []vWalkEntry{{root, &vInfo{name: "big", dir: true}}}
+	n := 255 + vChoice("extra_items", 3)*45 // 255, 300 or 345 visible files
+	for i := 0; i < n; i++ {
+		vWalkTree = append(vWalkTree, vWalkEntry{root + "/f", &vInfo{name: "f", size: 1}})
+	}
+	vWalkTree = append(vWalkTree, vWalkEntry{root + "/.hidden", &vInfo{name: ".hidden", size: 1}})
+	count, err := CalcItemCount(root)
+	vAssert("count_ok", err == nil && len(count) == 2)
+	vAssert("announced_count_is_number_of_visible_items", int(count[0])<<8|int(count[1]) == n)
+}
